@@ -270,6 +270,11 @@ pub trait Check: Sync {
         Duration::from_secs(20)
     }
     fn families(&self, tier: Tier) -> Vec<Family<'_>>;
+    /// Byte-vector families that the coverage-guided stage of the thorough tier also drives, with
+    /// the number of libFuzzer runs per job (in-process families only; see `fuzzstage`).
+    fn fuzz_families(&self, _tier: Tier) -> Vec<(&'static str, u64)> {
+        Vec::new()
+    }
     /// Extra coverage keys for the evidence file.
     fn extra_coverage(&self, _tier: Tier) -> Value {
         json!({})
@@ -675,6 +680,11 @@ impl ShardCtx {
             shard: self.shard,
             case_no: self.case_no,
         }
+    }
+
+    /// Accounts one executed case of a random (not enumerated) family.
+    pub fn account_case(&mut self, family: &str, cx: CaseCtx, input: Input) {
+        self.account(family, cx, input, false)
     }
 
     /// Accounts one executed case.
@@ -1114,8 +1124,12 @@ pub fn worker_main(check: &'static dyn Check, tier: Tier, shard: usize, nshards:
         if shard == 0 {
             run_regressions(&mut ctx, &families);
         }
+        // VCHECK_FUZZ_ONLY (sensitivity trials of the coverage-guided stage): skip the generated families
+        let fuzz_only = std::env::var_os("VCHECK_FUZZ_ONLY").is_some();
         for fam in &families {
-            ctx.run_family(fam);
+            if !fuzz_only {
+                ctx.run_family(fam);
+            }
         }
         ctx.journal.idle();
         let result = ShardResult {
@@ -1223,7 +1237,7 @@ pub fn render_main(check: &'static dyn Check, family: String, kind: String, data
     })
 }
 
-fn render_in_child(prop: &str, family: &str, kind: &str, data: &str) -> Option<Value> {
+pub fn render_in_child(prop: &str, family: &str, kind: &str, data: &str) -> Option<Value> {
     use std::process::{Command, Stdio};
     let exe = std::env::current_exe().ok()?;
     let out = Command::new(exe)
@@ -1253,11 +1267,16 @@ fn signal_name(sig: i32) -> String {
     }
 }
 
-struct OneOutcome {
-    pass: bool,
-    class: String,
-    output: String,
-    timed_out: bool,
+pub struct OneOutcome {
+    pub pass: bool,
+    pub class: String,
+    pub output: String,
+    pub timed_out: bool,
+}
+
+/// Tolerant single-case run of a byte-vector input (used by the fuzz stage to confirm saved inputs).
+pub fn run_single(prop: &str, family: &str, hex: &str, limit: Duration) -> OneOutcome {
+    run_one_process(prop, family, "bytes", hex, limit, false)
 }
 
 /// Runs a single case in a fresh process (strict or tolerant), with a time limit.
@@ -1630,6 +1649,17 @@ pub fn supervise(check: &'static dyn Check, tier: Tier) -> i32 {
         }
     }
 
+    // Coverage-guided stage (thorough tier, when ./check built the libFuzzer target): the same case
+    // functions driven by libFuzzer; every input it saves was confirmed in a single-case process.
+    let mut fuzz_report: Vec<Value> = Vec::new();
+    if tier == Tier::Thorough && violations.is_empty() && infra.is_empty() {
+        let o = crate::fuzzstage::run_stage(check, tier, seed, &workdir, nshards);
+        stats.merge(o.stats);
+        violations.extend(o.violations);
+        infra.extend(o.infra);
+        fuzz_report = o.report;
+    }
+
     // Known-finding filter for crash classes reported by the supervisor and for in-worker failures
     // whose class is listed (the saved regression inputs are the primary mechanism; this covers
     // generated cases that hit a listed open finding's class).
@@ -1654,7 +1684,7 @@ pub fn supervise(check: &'static dyn Check, tier: Tier) -> i32 {
 
     // Essential classes
     let mut missing: Vec<String> = Vec::new();
-    if real.is_empty() {
+    if real.is_empty() && std::env::var_os("VCHECK_FUZZ_ONLY").is_none() {
         for e in check.essential(tier) {
             if stats.labels.get(e).copied().unwrap_or(0) == 0 {
                 missing.push(e.to_owned());
@@ -1690,6 +1720,9 @@ pub fn supervise(check: &'static dyn Check, tier: Tier) -> i32 {
         "shards": nshards,
         "notes": stats.notes,
     });
+    if !fuzz_report.is_empty() {
+        coverage["coverage_guided"] = json!(fuzz_report);
+    }
     if let (Value::Object(m), Value::Object(extra)) = (&mut coverage, check.extra_coverage(tier)) {
         for (k, v) in extra {
             m.insert(k, v);
